@@ -35,7 +35,7 @@ TRet == /\ IsEv("ret")
                    /\ blen' = r[2]
                    /\ IF r[1] = "overflow" THEN e.cls = "overflow" /\ pos' = pos
                       ELSE IF opn.kind = "enqueue" THEN e.cls = "ok" /\ pos' = r[3]
-                      ELSE (e.cls = "ok" /\ pos' = 0) \/ (e.cls = "io_err" /\ pos' = r[3])
+                      ELSE (e.cls = "ok" /\ pos' = 0) \/ (e.cls \in {"io_err", "cancelled"} /\ pos' = r[3])
            /\ pos' = e.pos /\ blen' = e.blen
 TEnd == IsEv("end") /\ UNCHANGED <<blen, pos, opn>>
 TNext == TReset \/ TOp \/ TWrite \/ TWriteErr \/ TRet \/ TEnd
